@@ -131,6 +131,7 @@ class Result:
         self.miso = "-"
         self.results = {}       # k -> "ok ..." / "err ..." / "panic"
         self.exp, self.chg, self.card = {}, {}, None
+        self.card_at = {}       # call index of a card exchange ("sw") -> (kind, nblocks, bytes) from then on
         self.calltrace = {}     # k -> trace lines of call k
         cur = []
         for l in lines:
@@ -141,7 +142,9 @@ class Result:
             elif l.startswith("O chg "):
                 _, _, k, d = l.split(); self.chg[int(k)] = {} if d == "-" else {int(x.split(":")[0]): int(x.split(":")[1]) for x in d.split(",")}
             elif l.startswith("O card "):
-                p = l.split(); self.card = (p[2], int(p[4]), int(p[6]))
+                p = l.split(); self.card = (p[2], int(p[4]), int(p[6])); self.card_at[-1] = self.card
+            elif l.startswith("O cardat "):
+                p = l.split(); self.card_at[int(p[2])] = (p[3], int(p[5]), int(p[7]))
             elif l.startswith("R "):
                 p = l.split(" ", 2); self.results[int(p[1])] = p[2]; self.calltrace[int(p[1])] = cur; cur = []
             elif l and l[0] in "WTIDPF":
@@ -149,6 +152,11 @@ class Result:
 
     def trace(self):
         return [l for l in self.cmp if l and l[0] in "WTIDPF"]
+
+    def card_for(self, k):
+        """the card in the slot when call k runs"""
+        ks = [j for j in self.card_at if j < k]
+        return self.card_at[max(ks)] if ks else self.card
 
 
 def trace_bytes(lines):
